@@ -6,6 +6,30 @@ claimed = subprocess.run([os.path.join(V, "check"), "--list"], stdout=subprocess
 
 # id -> (category, level text, level note, technique, design ref)
 T = {
+ "C06": ("exploration",
+         "Differential + reference-model property testing (rapid): generated message lists, fragmentations, interleaved control frames and byte-stream segmentations are delivered through a scripted transport to all four read APIs (async completions inline or parked); every delivery is compared with the generated reference and across APIs and two segmentations. Bounded search.",
+         "Trusts the independent RFC 6455 encoder in harness/internal/rfc6455, the scripted transport harness/internal/memstream and the verif-tagged VerifAttach hook (state=Active + init, what in-package tests do).",
+         "differential property-based testing against an independent encoder (rapid)", "DESIGN.md §4 C06"),
+ "C07": ("exploration",
+         "Property testing (rapid) plus coverage-guided native fuzzing (thorough tier) of FrameCodec.Decode against an independent RFC 6455 parser: frame bytes, ErrNeedMore iff incomplete, error iff declared>max (incl. top-bit lengths), exact consumption, bounded capacity, split-independence, Encode->Decode round trips. Bounded search.",
+         "Trusts harness/internal/rfc6455 as the reference parser; capacity bound allows Go's append growth (2x).",
+         "property-based testing + coverage-guided fuzzing with a differential oracle", "DESIGN.md §4 C07"),
+ "C08": ("exploration",
+         "Model-based property testing (rapid state machine): generated histories of peer events and local calls on a scripted transport are compared step by step with a reference RFC 6455 endpoint model (read results, refused writes, allowed State() set) and the outbound bytes, parsed independently, with the model's frame list. Bounded search (<=25 steps per history).",
+         "Trusts the endpoint model in harness/ws/c08_statemachine_test.go and the independent parser; behaviours the property leaves open (pong while closing, error on an invalid close payload) are accepted either way.",
+         "stateful property-based testing against a protocol reference model (rapid)", "DESIGN.md §4 C08"),
+ "C15": ("exploration",
+         "Mutation-style property testing (rapid): exactly one protocol violation injected into a generated conforming session at a generated position, under generated segmentations, for all four read APIs; checks error reporting, non-delivery, Close(1002) + state + write refusal for framing violations. Bounded search.",
+         "Trusts the session generator shared with C06 and the independent parser; fragmentation-rule and message-size mutations are judged on the message APIs only, as the property states.",
+         "property-based testing with single-fault mutation of conforming inputs (rapid)", "DESIGN.md §4 C15"),
+ "C16": ("exploration",
+         "Property testing (rapid): generated write histories (all APIs, length classes, caller-built frames with/without payload, auto Pong/Close, pooled-frame reuse, inline/parked transport completions); the complete captured byte stream must parse with an independent parser into exactly the submitted frames. Bounded search.",
+         "Trusts the independent parser; one application write in flight at a time; scripted transport is all-or-error like the real adapter; GOMAXPROCS=1 makes sync.Pool reuse deterministic.",
+         "property-based testing with an independent parser as oracle (rapid)", "DESIGN.md §4 C16"),
+ "C19": ("exploration",
+         "Round-trip / differential property testing (rapid) of CodecConn with the length-prefixed codec: every segmentation class of the read stream over a scripted transport, write path byte-exactness, hostile and over-limit headers, a real sonic.Dial<->sonic.Listen pair with small kernel buffers so both directions would-block mid-item, plus a native fuzz target in the thorough tier. Bounded search.",
+         "Trusts the 4-byte big-endian reference framing in the harness; declared lengths between 1 MiB and the 1 GiB limit are not generated (allocation cost).",
+         "round-trip property-based testing + fuzzing (rapid, go fuzz)", "DESIGN.md §4 C19"),
  "C09": ("exploration",
          "Model-based property testing (rapid state machine) over the whole ByteBuffer API with boundary-class integer arguments (MinInt..MaxInt), compared after every call with a three-slice reference model and the live-slot list; panics are failures; shrunk counterexample on failure. Bounded search, not a proof.",
          "Trusts the three-slice model in harness/buffers/c09_bytebuffer_test.go; Discard/SavedSlot only with live slots, Reserve <= 1 MiB, io doubles obey the io contracts (see DESIGN.md §7).",
